@@ -15,6 +15,7 @@ func propC10(c *Ctx, r *Report) {
 	r.rule("C10/height-restored", 1, "a failed block leaves the in-memory height where it was")
 	heightWriters(c, newSharedAnalysis(c), r, "C10/height-restored")
 	ruleRetrySameHeight(c, r, "C10/retry-same-height")
+	ruleErrPtrOverwrite(c, r, "C10/error-not-overwritten", c.RSync)
 	ruleNoCarriedReads(c, newSharedAnalysis(c), r, "C10/state-across-rollback", c.RSync, carriedAllowedAverages, "block processing")
 	// recovered panics: a panic raised by a fault and recovered on the sync path lets the same process retry
 	// with whatever in-memory state deferred functions left behind
